@@ -95,6 +95,7 @@ package agent
 //@   onsend-add sentlen: len(val.Payload)
 //@   onsend [tagged] ch == dc.out && val.Laddr == dc.Laddr && val.Raddr == dc.Raddr
 //@   onsend [fits-frame] len(val.Payload) <= 32768
+//@   onsend [own-buffer] sincelastsend(val.Payload)
 //@   onsend [next-chunk] sentlen - old(sentlen) + len(val.Payload) <= len(b) && fresh(val.Payload) && (forall i int :: 0 <= i && i < len(val.Payload) ==> val.Payload[i] == b[sentlen - old(sentlen) + i])
 //@   ensures [all-sent] result1 == nil ==> result0 == len(b) && sentlen == old(sentlen) + len(b)
 //@   ensures [timeout-reports-sent] result1 != nil ==> sentlen == old(sentlen) + result0 && result0 <= len(b)
